@@ -22,9 +22,11 @@
 package main
 
 import (
+	"crypto/sha256"
 	"fmt"
 	"sort"
 	"strings"
+	"sync"
 
 	"github.com/polynetwork/poly/common/config"
 	_ "github.com/polynetwork/poly/native/service"
@@ -62,7 +64,7 @@ var ccids = [][]byte{{0x01, 0xaa}, {0x02}}
 func main() {
 	r := ev.Start("C20", "model_checking")
 	depth := r.QT(4, 5)
-	r.Require("accept", "replay-failed", "invalid-rejected", "other-chain-same-id-accepted")
+	r.Require("accept", "replay-failed", "invalid-rejected", "other-chain-same-id-accepted", "ids:accept", "ids:replay-rejected", "ids:second-id-accepted")
 	vals := polyenv.Keys(nVal)
 	polyenv.Setup(config.NETWORK_ID_MAIN_NET, vals)
 	polyenv.InstallHeightLedger()
@@ -83,6 +85,14 @@ func main() {
 				msgs[c] = append(msgs[c], ccm.MsgBytes(m))
 				alt[c] = append(alt[c], ccm.MsgBytes(m2))
 			}
+		}
+		// id-alphabet messages of chain S1 (indices 2..): see idAlphabet
+		ids := idAlphabet()
+		for k, id := range ids {
+			m := ccm.Msg([]byte{0xe2, byte(k)}, id, []byte{0xf0}, DST, make([]byte, 20), "unlock", a.WrapArgs([]byte{4, byte(k)}))
+			m2 := ccm.Msg([]byte{0xe3, byte(k)}, id, []byte{0xf0}, DST, make([]byte, 20), "unlock", a.WrapArgs([]byte{5, byte(k)}))
+			msgs[S1] = append(msgs[S1], ccm.MsgBytes(m))
+			alt[S1] = append(alt[S1], ccm.MsgBytes(m2))
 		}
 		w := polyenv.NewWorld()
 		w.Genesis(vals)
@@ -229,7 +239,10 @@ func main() {
 		if st.Truncated {
 			r.Capped(a.Name() + ": BFS truncated by deadline at depth " + fmt.Sprint(st.MaxDepth))
 		}
-		per[a.Name()] = map[string]any{"states": st.States, "transitions": st.Transitions, "per_depth": st.PerDepth, "events_per_state": len(events)}
+		idTx := idPhase(r, a, pool, init.D, ids)
+		total.Transitions += idTx
+		per[a.Name()] = map[string]any{"states": st.States, "transitions": st.Transitions, "per_depth": st.PerDepth, "events_per_state": len(events),
+			"id_alphabet": len(ids), "id_phase_txs": idTx}
 	}
 	r.Note("routers_covered", covered)
 	r.Note("routers_not_covered", ccm.RoutersWithoutAdapter())
@@ -242,6 +255,138 @@ func main() {
 		"states": total.States, "transitions": total.Transitions, "traces_validated_against_impl": total.Transitions, "max_depth": depth,
 		"network": "main net (NETWORK_ID_MAIN_NET), poly height 18823007, 4 validators",
 	})
+}
+
+// idAlphabet: cross-chain ids chosen at the edges of every encoding the done-marker could be squeezed through:
+// first byte 0x00 (an eth-style counter left-padded to 32 bytes), first bytes around the var-uint prefixes
+// (0xfc..0xff) and small lengths (0x01, 0x1f, 0x20), one-byte ids, the empty id, an id that is a prefix of another,
+// ids longer than 32 bytes (33, 64, 0xFD) together with their sha256 digests (an implementation folding long
+// ids must not make L and sha256(L) share a marker).
+func idAlphabet() [][]byte {
+	pad := func(first byte, n int) []byte {
+		b := make([]byte, n)
+		for i := range b {
+			b[i] = byte(0x30 + i)
+		}
+		b[0] = first
+		return b
+	}
+	counter := make([]byte, 32)
+	counter[31] = 0x2a
+	ids := [][]byte{counter, {}, {0x00}, {0xfd}, {0xfe}, {0xff}, {0xfd, 0x00, 0x00}, {0x05, 0x06}, {0x05, 0x06, 0x07}}
+	for _, f := range []byte{0x01, 0x1f, 0x20, 0xfc, 0xfd, 0xfe, 0xff} {
+		ids = append(ids, pad(f, 32))
+	}
+	for _, n := range []int{33, 64, 0xFD} {
+		l := pad(0x77, n)
+		d := sha256.Sum256(l)
+		ids = append(ids, l, d[:])
+	}
+	return ids
+}
+
+// idPhase: for every ordered pair (a, b) of distinct ids of the alphabet on chain S1: a is accepted, marked done
+// under exactly doneTx/LE64(chain)/a, its replays (other relayer; other message with the same id) are rejected
+// without trace; then b is still fresh: accepted and marked under doneTx/LE64(chain)/b, and its replay rejected.
+// Runs under EnableEventLog ∈ {true,false}; per tx (ok, write set, cross hashes) must not depend on the switch.
+func idPhase(r *ev.Run, a ccm.Adapter, pool *ccm.Worlds, base polyenv.Dump, ids [][]byte) int {
+	var mu sync.Mutex
+	ntx := 0
+	digests := map[string][32]byte{}
+	// submit runs one submission and judges it. Returns the dump afterwards.
+	submit := func(w *ccm.W, tag string, idx int, variant string, rel int, salt uint32, wantAccept bool, evlog bool) {
+		id := ids[idx-len(ccids)]
+		sub := a.Submit(S1, idx, variant, rel, salt)
+		accepted := 0
+		lastUnchanged := true
+		for k, tx := range sub.Txs {
+			before := w.Dump()
+			res := w.Exec(tx, H0, 1000)
+			after := w.Dump()
+			r.Eval()
+			lastUnchanged = before.String() == after.String()
+			newDone, newReq := newKeys(before, after, ccm.DonePrefix()), newKeys(before, after, ccm.RequestPrefix())
+			det := map[string]any{"router": a.Name(), "case": tag, "id": fmt.Sprintf("%x", id), "variant": variant, "tx_index": k, "tx_ok": res.OK,
+				"tx_err": fmt.Sprint(res.Err), "event_log": evlog, "new_done_keys": hexs(newDone)}
+			h := sha256.New()
+			fmt.Fprintf(h, "%v|", res.OK)
+			for _, c := range res.CrossHashes {
+				h.Write(c[:])
+			}
+			for _, kv := range res.WriteSet {
+				fmt.Fprintf(h, "%d:%s=%d:%s;", len(kv.K), kv.K, len(kv.V), kv.V)
+			}
+			var dg [32]byte
+			copy(dg[:], h.Sum(nil))
+			dk := fmt.Sprintf("%s/%d", tag, k)
+			mu.Lock()
+			ntx++
+			if prev, ok := digests[dk]; ok && prev != dg {
+				r.Violation("C20/"+a.Name()+"/ids/result-depends-on-event-log-switch", det)
+			}
+			digests[dk] = dg
+			mu.Unlock()
+			if !res.OK && !lastUnchanged {
+				r.Violation("C20/"+a.Name()+"/ids/failed-tx-changed-state", det)
+			}
+			if res.OK && (len(res.CrossHashes) > 0 || len(newDone) > 0 || len(newReq) > 0) {
+				accepted++
+				if !wantAccept || accepted > 1 {
+					r.Violation("C20/"+a.Name()+"/ids/replay-accepted", det)
+				}
+				if len(newDone) != 1 || newDone[0] != ccm.DoneKey(S1, id) {
+					r.Violation("C20/"+a.Name()+"/ids/accepted-but-not-marked-done-under-(chain,id)", det)
+				}
+			}
+		}
+		det := map[string]any{"router": a.Name(), "case": tag, "id": fmt.Sprintf("%x", id), "variant": variant, "event_log": evlog}
+		switch {
+		case wantAccept && accepted == 0:
+			r.Violation("C20/"+a.Name()+"/ids/fresh-id-rejected", det)
+		case wantAccept:
+			r.Class("ids:accept")
+		default:
+			r.Class("ids:replay-rejected")
+			if !lastUnchanged {
+				r.Violation("C20/"+a.Name()+"/ids/replay-changed-state", det)
+			}
+		}
+	}
+	for _, evlog := range []bool{true, false} {
+		config.DefConfig.Common.EnableEventLog = evlog
+		var wg sync.WaitGroup
+		for ai := range ids {
+			ai := ai
+			wg.Add(1)
+			go func() {
+				defer wg.Done()
+				ia := len(ccids) + ai
+				var da polyenv.Dump
+				pool.With(base, func(w *ccm.W) {
+					t := fmt.Sprintf("a%d", ai)
+					submit(w, t+"/first", ia, ccm.VSame, 0, 1, true, evlog)
+					submit(w, t+"/replay-same", ia, ccm.VSame, 1, 2, false, evlog)
+					submit(w, t+"/replay-altmsg", ia, ccm.VAltMsg, 0, 3, false, evlog)
+					da = w.Dump()
+				})
+				for bi := range ids {
+					if bi == ai {
+						continue
+					}
+					ib := len(ccids) + bi
+					pool.With(da, func(w *ccm.W) {
+						t := fmt.Sprintf("a%d/b%d", ai, bi)
+						submit(w, t+"/second-id", ib, ccm.VSame, 0, 4, true, evlog)
+						r.Class("ids:second-id-accepted")
+						submit(w, t+"/second-id-replay", ib, ccm.VAltMsg, 0, 5, false, evlog)
+					})
+				}
+			}()
+		}
+		wg.Wait()
+	}
+	config.DefConfig.Common.EnableEventLog = true
+	return ntx
 }
 
 func keysOf(m map[string]bool) []string {
